@@ -315,11 +315,17 @@ pub fn run(report: &mut Report) {
         let mut combos: Vec<Vec<Rw>> = singles.iter().map(|r| vec![*r]).collect();
         if thorough {
             for (i, a) in singles.iter().enumerate() {
-                for b in &singles[i + 1..] {
+                for (j, b) in singles.iter().enumerate().skip(i + 1) {
                     if a.pos == b.pos && a.kind == b.kind {
                         continue;
                     }
                     combos.push(vec![*a, *b]);
+                    // triples: a third rewrite of a kind not used yet (keeps the count in the 10^5 range)
+                    for c in singles.iter().skip(j + 1) {
+                        if c.kind != a.kind && c.kind != b.kind && a.kind != b.kind {
+                            combos.push(vec![*a, *b, *c]);
+                        }
+                    }
                 }
             }
         } else {
@@ -348,7 +354,7 @@ pub fn run(report: &mut Report) {
             if got != base {
                 // attribute the difference to single rewrites where possible: pairs whose members
                 // already differ singly are not reported again
-                if rws.len() == 2 {
+                if rws.len() >= 2 {
                     let singly_bad = rws.iter().any(|r| observe(seed.via, &serialize(&root, &[*r], seed.expanded)) != base);
                     if singly_bad {
                         continue;
